@@ -62,6 +62,29 @@ def make_witness(o, model, run_label):
     return {"source": w.source, "event": w.event}, exp, shapes
 
 
+def c17_witness(role):
+    """fault-injection witnesses: the native replayer wraps the event in a target that rejects chosen operations"""
+    if "Query[External]" in role:
+        spec = {"source": ".out = .a\n.after = true\n", "event": {"a": 5}, "faults": {"get": [1]}}
+        exp = {"outcome": "ok", "event_has": ["after", "out"], "event_eq": {"out": "Null", "a": {"Integer": "5"}}}
+        if "successful-read" in role:
+            spec = {"source": ".out = .a\n.after = true\n", "event": {"a": 5}}
+            exp = {"outcome": "ok", "event_eq": {"out": {"Integer": "5"}}}
+        return spec, exp, {}
+    if "AssignTarget[External]" in role:
+        spec = {"source": ".x = 1\n.after = true\n", "event": {"a": 5}, "faults": {"insert": [0]}}
+        exp = {"outcome": "ok", "event_has": ["after"], "event_lacks": ["x"], "event_eq": {"a": {"Integer": "5"}}}
+        if "writes-the-assigned-value" in role:
+            spec = {"source": ".x = 1\n.after = true\n", "event": {"a": 5}}
+            exp = {"outcome": "ok", "event_eq": {"x": {"Integer": "1"}}}
+        return spec, exp, {}
+    if "Runtime:unreadable-root" in role:
+        return {"source": ".x = 1\n", "event": {"a": 5}, "faults": {"get": [0]}}, {"outcome": "error", "event_lacks": ["x"]}, {}
+    if "Runtime:program-runs" in role or "Runtime:root-read-first" in role:
+        return {"source": ".x = 1\n", "event": {"a": 5}}, {"outcome": "ok", "event_has": ["x"]}, {}
+    return None
+
+
 def check(prop, ev, bounds=None, cvc5_cross=False):
     """run every node lemma tagged with `prop`; returns (violations, inconclusive, known_lines)"""
     viol, inconc, known_lines = [], [], []
@@ -124,7 +147,9 @@ def check(prop, ev, bounds=None, cvc5_cross=False):
         lab = child_label(S.types.struct_fields(node if node not in ("AssignVariant",) else "Variant", o.ex.hint_mod) or [])
         res = None
         try:
-            if ":Runner::" in role:
+            if role.startswith("C17:"):
+                res = c17_witness(role)
+            elif ":Runner::" in role:
                 rw = runnerlemmas.runner_witness(role)
                 res = (rw[0], rw[1], {}) if rw else None
             else:
